@@ -235,9 +235,10 @@ class RawExportOb(ExportOb):
 # scripts in which one table may carry several roles at once (all table names free, so "the table the bare SELECT reads
 # is the chain's intermediate table" is one of the solver's cases): the summary must agree with the accessors there too
 ROLE_SCRIPTS = {
-    "chain_then_select": ["INSERT INTO zqt1 SELECT ca FROM zqt2", "INSERT INTO zqt3 SELECT ca FROM zqt4", "SELECT ca FROM zqt5"],
-    "create_then_chain": ["CREATE TABLE zqt1 (ca int)", "INSERT INTO zqt2 SELECT ca FROM zqt3", "INSERT INTO zqt4 SELECT ca FROM zqt5"],
-    "select_first": ["SELECT ca FROM zqt1", "INSERT INTO zqt2 SELECT ca FROM zqt3", "INSERT INTO zqt4 SELECT ca FROM zqt5"],
+    # the first INSERT writes a column (cb) that nothing downstream consumes: a path may end at the intermediate table
+    "chain_then_select": ["INSERT INTO zqt1 SELECT ca, cb FROM zqt2", "INSERT INTO zqt3 SELECT ca FROM zqt4", "SELECT ca FROM zqt5"],
+    "create_then_chain": ["CREATE TABLE zqt1 (ca int)", "INSERT INTO zqt2 SELECT ca, cb FROM zqt3", "INSERT INTO zqt4 SELECT ca FROM zqt5"],
+    "select_first": ["SELECT ca FROM zqt1", "INSERT INTO zqt2 SELECT ca, cb FROM zqt3", "INSERT INTO zqt4 SELECT ca FROM zqt5"],
     "self_insert_in_chain": ["INSERT INTO zqt1 SELECT ca FROM zqt2 JOIN zqt3 ON zqt2.id = zqt3.id", "INSERT INTO zqt4 SELECT ca FROM zqt5"],
     "two_selects_one_write": ["SELECT ca FROM zqt1", "CREATE TABLE zqt2 (ca int)", "INSERT INTO zqt3 SELECT ca FROM zqt4"],
 }
